@@ -133,7 +133,7 @@ CLAIMS = {
                  "against the proxy's host with the proxy_config assertions; HTTPS pools dial the proxy; CONNECT targets the "
                  "bracket-preserving _tunnel_host and the pool's port; the manager passes the absolute URL iff proxy without tunnel, else "
                  "request_uri. Declined: bytes received by proxy and origin."
-                 " Inside a tunnel the origin handshake is verified with the connection's own assertions, never the proxy's; set_tunnel does not rewrite the recorded CONNECT target."),
+                 " Inside a tunnel the origin handshake is verified with the connection's own assertions, never the proxy's; set_tunnel does not rewrite the recorded CONNECT target. A failed CONNECT exchange must count as a proxy failure whatever the proxy answered (C09-R13: a garbage or empty reply is raised as ProtocolError - F26a/b, known)."),
         "note": _TRUST + "http.client's _tunnel()/set_tunnel are trusted for the CONNECT exchange itself. F11 (C04-R8, shared) is a known finding.",
         "technique": "static analysis: decision-table extraction, taint/provenance through abstract interpretation of the drivers, event-order typestate in connect()",
     },
@@ -175,7 +175,7 @@ CLAIMS = {
                  "sized read that returned no data - decided for every decode call of read, including the refill reads of one call: bytes that may be empty are never decoded under a definitely-false flag, and the end of the body is not reported before a decoder that was fed is flushed (C12-R6; found F19 and F24, both repaired); stream() loops until the stdlib response is closed and the queue is empty; "
                  "readinto/iteration/.data go through the same readers. Declined (most of the statement): equality of concatenations over "
                  "arbitrary call sequences, the read(n) size contract, segmentation independence."
-                 " A sized take from the decoded-byte queue always follows a put or a size test (C12-R10); the raw reader never closes the stdlib response early with a piece in hand (C13-R1, shared)."),
+                 " A sized take from the decoded-byte queue always follows a put or a size test (C12-R10); the raw reader never closes the stdlib response early with a piece in hand (C13-R1, shared). The position inside a chunked body has one owner (C12-R11: it has two - F25, known)."),
         "note": _TRUST + "zlib/zstandard decompressobj API typestate is a small frozen table (single-use after eof for zstd; unused_data for zlib). F7b (read_chunked yields past the queue) is a known finding; F7 (read) and F8 (zstd frame boundary) were repaired.",
         "technique": "static analysis: provenance typestate of delivered bytes by abstract interpretation, API-typestate of decoder objects with object-invariant entry state, structural queries",
     },
